@@ -1,12 +1,17 @@
 #!/usr/bin/env python3
 """Must-fail corpus: applies every seeded change (seeded/<id>/patch.diff) to a scratch copy of
 /repo's working tree and runs the checks named in its meta.json against that copy.
-usage: seedsweep.py [--prop Cxx] [--write]   (--write updates seeded/RESULTS.md and meta 'detected_by')
-exit 0 always; prints one line per seed.  Scratch copies live under $TMPDIR and are removed."""
+usage: seedsweep.py [--prop Cxx] [--write] [--require]
+  --write    updates seeded/RESULTS.md and meta 'detected_by'
+  --require  (used by `./check <id> thorough`) exit 2 with an ENGINE-ERROR line when a seeded change that
+             meta.json records as detected by the check is no longer detected (the check lost strength)
+exit 0 otherwise; prints one line per seed.  Scratch copies live under $TMPDIR and are removed."""
 import json, os, subprocess, sys, tempfile, shutil, glob
 V = os.path.dirname(os.path.dirname(os.path.abspath(__file__)))
 prop = None
 write = '--write' in sys.argv
+require = '--require' in sys.argv
+lost = []
 if '--prop' in sys.argv:
     prop = sys.argv[sys.argv.index('--prop') + 1]
 tmp = tempfile.mkdtemp(prefix='govc-sweep-')
@@ -40,6 +45,12 @@ try:
                 conf = any('replayed=confirmed' in l for l in vs)
                 detected.append({'check': c, 'obligations': obl[:4], 'replayed_confirmed': conf})
         subprocess.run(['patch', '-p1', '-R', '-s', '-d', repo, '-i', patch], capture_output=True)
+        if require:
+            was = {x['check'] for x in meta.get('detected_by', [])}
+            now = {x['check'] for x in detected}
+            for c in sorted(was - now):
+                if not prop or c == prop:
+                    lost.append((meta['id'], c))
         rows.append((meta['id'], 'DETECTED' if detected else 'missed', detected))
         if write:
             meta['detected_by'] = detected
@@ -56,3 +67,15 @@ if write:
             f.write(f'| {sid} | {sid.split("-")[0]} | {res} | {ob} | {rp} |\n')
 n = sum(1 for r in rows if r[1] == 'DETECTED')
 print(f'{n}/{len(rows)} seeded changes detected')
+if '--evidence' in sys.argv:
+    ep = sys.argv[sys.argv.index('--evidence') + 1]
+    try:
+        ev = json.load(open(ep))
+        ev['coverage']['must_fail_corpus'] = {sid: (res + (' by ' + ', '.join(x['check'] + ':' + x['obligations'][0] for x in det) if det else '')) for sid, res, det in rows}
+        json.dump(ev, open(ep, 'w'), indent=1)
+    except Exception as e:
+        print('WARNING: could not update evidence:', e)
+for sid, c in lost:
+    print(f'ENGINE-ERROR: seeded change {sid} is recorded as detected by check {c} but is no longer detected')
+if lost:
+    sys.exit(2)
